@@ -127,11 +127,12 @@ Qed.
 
 Lemma run_iter_inv s : Inv s -> Inv (run_iter s).
 Proof.
-  intros HI. unfold run_iter. destruct (pick s); [apply adv_on_inv, HI|]. destruct HI; constructor; assumption.
+  intros HI. unfold run_iter. destruct (pick s); [|destruct HI; constructor; assumption].
+  destruct (tblocked s); [destruct HI; constructor; assumption | apply adv_on_inv, HI].
 Qed.
 
 Lemma fire_inv s : Inv s -> Inv (fire s).
-Proof. intros HI. unfold fire. destruct (scheduled s); [exact HI | apply run_iter_inv, HI]. Qed.
+Proof. intros HI. unfold fire. destruct (scheduled s || chained s); [exact HI | apply run_iter_inv, HI]. Qed.
 
 Lemma app_chunk_ok n y : stream_ok y -> stream_ok (app_chunk n y).
 Proof.
@@ -185,7 +186,7 @@ Proof.
   intros HI. unfold prod_run.
   set (s1 := prod_loop _ i s). assert (H1 : Inv s1) by (apply prod_loop_inv, HI).
   destruct (find_stream i (streams s1)) as [x|]; [|exact H1].
-  destruct (hasprod x && Nat.eqb (pleft x) 0); [|exact H1].
+  destruct (hasprod x && Nat.eqb (pleft x) 0 && (negb (lazy x) || producing x)); [|exact H1].
   apply end_req_inv, upd_neutral_inv; [exact H1 | neut].
 Qed.
 
@@ -228,11 +229,13 @@ Proof. destruct a; split; cbn; try reflexivity; exists []; reflexivity. Qed.
 
 Lemma render_inv i a s : Inv s -> Inv (render i a s).
 Proof.
-  intros HI. destruct a as [cs|cs|c n|pre c n]; cbn [render].
+  intros HI. destruct a as [cs|cs|c n|pre c n|pre c n]; cbn [render].
   - apply app_finish_inv. revert s HI. induction cs as [|c cs IH]; intros s HI; cbn [fold_left]; [exact HI|].
     apply IH, app_write_inv, HI.
   - exact HI.
   - apply prod_run_inv, HI.
+  - apply prod_run_inv, upd_neutral_inv; [|neut].
+    destruct (0 <? pre); [apply write_to_inv, HI | exact HI].
   - apply prod_run_inv, upd_neutral_inv; [|neut].
     destruct (0 <? pre); [apply write_to_inv, HI | exact HI].
 Qed.
@@ -253,7 +256,8 @@ Qed.
 
 Lemma step_inv s o : Inv s -> Inv (step s o).
 Proof.
-  intros HI. destruct o as [|[|t] inc|v|v|i|i|i a|]; cbn [step]; [| | | | | | | |apply drain_inv, HI].
+  intros HI. destruct o as [|[|t] inc|v|v|i|i|i a| | |]; cbn [step];
+    [| | | | | | | | | |apply drain_inv, HI].
   - destruct (scheduled s); [apply run_iter_inv, HI | exact HI].
   - apply fire_inv, conn_window_updated_inv. destruct HI; constructor; assumption.
   - destruct (find_stream (S t) (streams s)); [|apply fire_inv, HI].
@@ -264,6 +268,11 @@ Proof.
   - apply app_write_inv, HI.
   - apply app_finish_inv, HI.
   - apply request_inv, HI.
+  - destruct HI; constructor; assumption.
+  - destruct (tblocked s); [|exact HI].
+    assert (H1 : Inv (mk (streams s) (cwin s) (maxf s) (iw s) (last s) (scheduled s) (log s) false false))
+      by (destruct HI; constructor; assumption).
+    destruct (chained s); [apply run_iter_inv, H1 | exact H1].
 Qed.
 
 Lemma steps_inv ops : forall s, Inv s -> Inv (fold_left step ops s).
@@ -361,7 +370,7 @@ Proof. vm_compute. auto 20. Qed.
 
 (** ---- no lost wake-up of the sending loop: a parked sender means every stream is blocked in the tree ---- *)
 Definition all_blocked (l : list stream) : Prop := Forall (fun x => blocked x = true) l.
-Definition Parked (s : st) : Prop := scheduled s = false -> all_blocked (streams s).
+Definition Parked (s : st) : Prop := scheduled s = false -> chained s = false -> all_blocked (streams s).
 
 Lemma split_after_app i l a b : split_after i l = Some (a, b) -> l = a ++ b.
 Proof.
@@ -388,8 +397,8 @@ Qed.
 Lemma run_iter_parked s : Parked (run_iter s).
 Proof.
   unfold run_iter, Parked. destruct (pick s) as [i|] eqn:Ep.
-  - rewrite adv_on_scheduled. discriminate.
-  - intros _. cbn. apply rotation_blocked. unfold pick in Ep.
+  - destruct (tblocked s); [cbn; discriminate | rewrite adv_on_scheduled; discriminate].
+  - intros _ _. cbn. apply rotation_blocked. unfold pick in Ep.
     destruct (find (fun x => negb (blocked x)) (rotation s)) eqn:Ef; [discriminate|].
     unfold all_blocked. rewrite Forall_forall. intros x Hx.
     pose proof (find_none _ _ Ef x Hx) as H. cbn in H. destruct (blocked x); [reflexivity | discriminate].
@@ -397,7 +406,8 @@ Qed.
 
 Lemma fire_parked s : Parked (fire s).
 Proof.
-  unfold fire. destruct (scheduled s) eqn:E; [|apply run_iter_parked]. unfold Parked. rewrite E. discriminate.
+  unfold fire. destruct (scheduled s || chained s) eqn:E; [|apply run_iter_parked].
+  unfold Parked. intros E1 E2. rewrite E1, E2 in E. discriminate.
 Qed.
 
 (** changes that leave [blocked] alone keep the fact *)
@@ -405,7 +415,7 @@ Definition keeps_blocked (f : stream -> stream) : Prop := forall y, blocked (f y
 
 Lemma upd_parked i f s : keeps_blocked f -> Parked s -> Parked (upd i f s).
 Proof.
-  intros Hf HP Hs. specialize (HP Hs). unfold all_blocked in *. cbn. unfold upd_stream. apply Forall_map.
+  intros Hf HP Hs Hch. specialize (HP Hs Hch). unfold all_blocked in *. cbn. unfold upd_stream. apply Forall_map.
   eapply Forall_impl; [|exact HP]. intros y Hy. cbn. destruct (Nat.eqb (sid y) i); [rewrite Hf|]; exact Hy.
 Qed.
 
@@ -457,7 +467,7 @@ Proof.
   intros HP. unfold prod_run. set (s1 := prod_loop _ i s).
   assert (H1 : Parked s1) by (apply prod_loop_parked, HP).
   destruct (find_stream i (streams s1)) as [x|]; [|exact H1].
-  destruct (hasprod x && Nat.eqb (pleft x) 0); [|exact H1].
+  destruct (hasprod x && Nat.eqb (pleft x) 0 && (negb (lazy x) || producing x)); [|exact H1].
   apply end_req_parked, upd_parked; [kb | exact H1].
 Qed.
 
@@ -479,13 +489,14 @@ Proof.
   intros HP. unfold request.
   set (s0 := set_streams (streams s ++ [new_stream i (iw s) a]) s).
   assert (H0 : Parked s0).
-  { intros Hs. unfold s0, all_blocked. cbn. apply Forall_app. split; [apply HP, Hs|].
+  { intros Hs Hch. unfold s0, all_blocked. cbn. apply Forall_app. split; [apply HP; [exact Hs | exact Hch]|].
     constructor; [destruct a; reflexivity | constructor]. }
-  destruct a as [cs|cs|c n|pre c n]; cbn [render].
+  destruct a as [cs|cs|c n|pre c n|pre c n]; cbn [render].
   - apply app_finish_parked. generalize dependent s0. induction cs as [|c cs IH]; intros s0 H0; cbn [fold_left];
       [exact H0|]. apply IH, app_write_parked, H0.
   - exact H0.
   - apply prod_run_parked, H0.
+  - apply prod_run_parked, upd_parked; [kb|]. destruct (0 <? pre); [apply write_to_parked, H0 | exact H0].
   - apply prod_run_parked, upd_parked; [kb|]. destruct (0 <? pre); [apply write_to_parked, H0 | exact H0].
 Qed.
 
@@ -499,7 +510,8 @@ Qed.
 
 Lemma step_parked s o : Parked s -> Parked (step s o).
 Proof.
-  intros HP. destruct o as [|[|t] inc|v|v|i|i|i a|]; cbn [step]; [| | | | | | | |apply drain_parked, HP].
+  intros HP. destruct o as [|[|t] inc|v|v|i|i|i a| | |]; cbn [step];
+    [| | | | | | | | | |apply drain_parked, HP].
   - destruct (scheduled s) eqn:E; [apply run_iter_parked | exact HP].
   - apply fire_parked.
   - destruct (find_stream (S t) (streams s)); apply fire_parked.
@@ -508,6 +520,10 @@ Proof.
   - apply app_write_parked, HP.
   - apply app_finish_parked, HP.
   - apply request_parked, HP.
+  - exact HP.
+  - destruct (tblocked s); [|exact HP].
+    destruct (chained s) eqn:Ec; [apply run_iter_parked|].
+    intros E1 E2. cbn in *. apply HP; [exact E1 | exact Ec].
 Qed.
 
 Lemma setup_parked apps : forall k s, Parked s -> Parked (setup k apps s).
